@@ -522,6 +522,24 @@ def run(ctx):
             pre[v] = st[0] if st else None
     ctx.inst("C10.R6", "prefix#invert==natural_not", pre.get("invert") is not None and pre.get("invert") == pre.get("natural_not"), "invert -> %s, natural_not -> %s" % (pre.get("invert"), pre.get("natural_not")), "blots-core/src/expressions.rs")
 
+    # ---------------- R8 the lambda-body copy of infix_usage admits the same layout
+    ctx.rule("C10.R8", "lambda_infix_usage is infix_usage with a smaller operator set: alternative by alternative the gaps before and after the operator admit the same layout (spaces / line breaks, optional / mandatory), so an expression keeps its meaning when it becomes a lambda body", floor=2)
+    if "lambda_infix_usage" in G.rules and "infix_usage" in G.rules:
+        A, B = G.alts(G.expr("infix_usage")), G.alts(G.expr("lambda_infix_usage"))
+        if len(A) != len(B):
+            ctx.inst("C10.R8", "alternatives", None, "infix_usage has %d alternatives, lambda_infix_usage %d: not compared" % (len(A), len(B)), "blots-core/src/grammar.pest")
+        for i_, (a_, b_) in enumerate(zip(A, B)):
+            sa, sb = G.seq(a_), G.seq(b_)
+            ga = [G.is_ws_gap(e_) for e_ in sa]
+            gb = [G.is_ws_gap(e_) for e_ in sb]
+            same_shape = [g is None for g in ga] == [g is None for g in gb]
+            if not same_shape:
+                ctx.inst("C10.R8", "alternative[%d]" % i_, None, "the two alternatives have different shapes: not compared", "blots-core/src/grammar.pest")
+                continue
+            diffs = [(j_, x_, y_) for j_, (x_, y_) in enumerate(zip(ga, gb)) if x_ is not None and (sorted(x_[0]) != sorted(y_[0]) or x_[1] != y_[1])]
+            ctx.inst("C10.R8", "alternative[%d]" % i_, not diffs,
+                     "gaps of infix_usage %s vs lambda_infix_usage %s%s" % ([g for g in ga if g], [g for g in gb if g], "" if not diffs else ": position(s) %s differ - layout that is legal around an operator is not legal (or means something else) inside a lambda body" % [d_[0] for d_ in diffs]), "blots-core/src/grammar.pest")
+
     # ---------------- R7 atomicity cascade
     ctx.rule("C10.R7", "a rule whose body is matched only in atomic context (pest cascades @/$ into callees) and that admits line breaks between its tokens also admits spaces there", floor=1)
     actx = G.atomic_contexts()
